@@ -287,6 +287,9 @@ HDR_VALS = {'Alg': 1, 'Crit': 2, 'ContentType': 3, 'Kid': 4, 'Iv': 5, 'PartialIv
 KEY_VALS = {'Kty': 1, 'Kid': 2, 'Alg': 3, 'KeyOps': 4, 'BaseIv': 5}
 
 
+ALL_SRC = {}
+
+
 def rewrite(m, src, util_src, registries, counts):
     """R1-R8 on one module.  counts: dict rule -> number of applications."""
     src = src.replace('#[cfg(test)]\nmod tests;\n', '')
@@ -345,6 +348,34 @@ def rewrite(m, src, util_src, registries, counts):
     src = cnt('R4', r"\b(\w+)\s*!=\s*(\w+)\.trim\(\)", r"crate::vprelude::str_ne_string(\1, \2.trim())", src, regex=True)
     src = cnt('R4', r"\b(\w+)\.trim\(\)\s*==\s*(\w+)\b(?![.(])", r"!crate::vprelude::str_ne_string(\1.trim(), \2)", src, regex=True)
     src = cnt('R4', r"\b(\w+)\s*==\s*(\w+)\.trim\(\)", r"!crate::vprelude::str_ne_string(\1, \2.trim())", src, regex=True)
+    # R13: a one-field tuple constructor passed as a function value to an Option / Result combinator (`.map(Value::Bytes)`)
+    # is eta-expanded to a closure (`.map(|x__| Value::Bytes(x__))`, the same function); add_auto() gives that closure the
+    # `ensures` that says so.  The constructor table comes from the enum / tuple-struct definitions of the current source.
+    ctors = set(['Some', 'Ok', 'Err', 'Integer', 'Bytes', 'Float', 'Text', 'Bool', 'Array', 'Map'])
+    allsrc = ALL_SRC.get('text') or src
+    for em in re.finditer(r'\benum\s+[A-Z][A-Za-z0-9_]*(?:<[^>{]*>)?\s*(?:where[^{]*)?\{', allsrc):
+        try:
+            ee = match_brace(allsrc, em.end() - 1)
+        except Exception:
+            continue
+        for vm in re.finditer(r'\b([A-Z][A-Za-z0-9_]*)\s*\(([^(),]*(?:<[^()]*>)?[^(),]*)\)\s*,', allsrc[em.end():ee]):
+            ctors.add(vm.group(1))
+    tuple_structs = set(re.findall(r'\bstruct\s+([A-Z][A-Za-z0-9_]*)\s*\(\s*(?:pub(?:\([a-z]+\))?\s+)?[^(),]+\)\s*;', allsrc))
+    ctors |= tuple_structs
+
+    def r13(mm):
+        path = mm.group(3)
+        last = path.split('::')[-1]
+        if last == 'Self':
+            encl = [im.group(1) for im in re.finditer(r'\bimpl(?:<[^>]*>)?\s+(?:[A-Za-z0-9_:<>, ]+?\s+for\s+)?([A-Za-z0-9_]+)', src[:mm.start()])]
+            if not encl or encl[-1] not in tuple_structs:
+                return mm.group(0)
+        elif last not in ctors:
+            return mm.group(0)
+        counts['R13'] += 1
+        return '%s%s|x__| /*@AUTO:eta:%s*/ { %s(x__) }%s' % (mm.group(1), mm.group(2), path, path, mm.group(4))
+    src = re.sub(r'(\.\s*(?:map|map_err|and_then)\s*\()(\s*)((?:[A-Za-z_][A-Za-z0-9_]*::)*[A-Z][A-Za-z0-9_]*)(\s*\))', r13, src)
+    src = re.sub(r'(\.\s*map_or\s*\((?:[^(),]|\([^()]*\))*,)(\s*)((?:[A-Za-z_][A-Za-z0-9_]*::)*[A-Z][A-Za-z0-9_]*)(\s*\))', r13, src)
     # R12: a reference type in a `const` / `static` item has the elided lifetime 'static; Verus wants it written
     def r12(mm):
         ty = re.sub(r"&(?!\s*')", "&'static ", mm.group(3))
@@ -767,6 +798,7 @@ def add_auto(text, registries):
     def rep(m):
         return GOPEN + iana_spec_text(m.group(1), regs[m.group(1)]) + GCLOSE
     text = re.sub(r'/\*@AUTO:iana_spec:([A-Za-z0-9_]+)\*/', rep, text)
+    text = re.sub(r'/\*@AUTO:eta:([A-Za-z0-9_:]+)\*/', lambda m: GOPEN + '-> (r__: _) ensures equal(r__, %s(x__))' % m.group(1) + GCLOSE, text)
 
     def rep2(m):
         kind, b, t, n = m.group(1), m.group(2), m.group(3), m.group(4)
@@ -1007,11 +1039,12 @@ def generate(repo=REPO, contracts_dir=None, with_contracts=True, degrade=()):
     out.append(prelude)
     info['inputs']['contracts/prelude.rs'] = sha(prelude)
     plain = {}
+    ALL_SRC['text'] = '\n'.join(open(os.path.join(repo, 'src', m_, 'mod.rs')).read() for m_ in MODS)
     for m in MODS:
         path = os.path.join(repo, 'src', m, 'mod.rs')
         src = open(path).read()
         info['inputs']['src/%s/mod.rs' % m] = sha(src)
-        counts = {k: 0 for k in ['R1', 'R2', 'R3', 'R4', 'R5', 'R6', 'R7', 'R8', 'R9', 'R10', 'R11', 'R12']}
+        counts = {k: 0 for k in ['R1', 'R2', 'R3', 'R4', 'R5', 'R6', 'R7', 'R8', 'R9', 'R10', 'R11', 'R12', 'R13']}
         c = rewrite(m, src, util_src, registries, counts)
         info['rewrites'][m] = counts
         plain[m] = c
@@ -1091,7 +1124,7 @@ if __name__ == '__main__':
         util_src = open(os.path.join(REPO, 'src/util/mod.rs')).read()
         regs = []
         for m in MODS:
-            counts = {k: 0 for k in ['R1', 'R2', 'R3', 'R4', 'R5', 'R6', 'R7', 'R8', 'R9', 'R10', 'R11', 'R12']}
+            counts = {k: 0 for k in ['R1', 'R2', 'R3', 'R4', 'R5', 'R6', 'R7', 'R8', 'R9', 'R10', 'R11', 'R12', 'R13']}
             c = rewrite(m, open(os.path.join(REPO, 'src', m, 'mod.rs')).read(), util_src, regs, counts)
             side = os.path.join(VERIF, 'contracts', m + '.rs')
             g, mi = merge(open(side).read(), c, m)
